@@ -12,7 +12,7 @@ EXPLANATION = (
     "split position from a search on the same string, length arithmetic on in-memory sizes) or by a reasoned exemption with a checked fingerprint; otherwise it is a violation; "
     "D2 the internal-consistency panics of Summary are unreachable because C07's kind-consistency and who-writes rules hold (re-evaluated here); "
     "D3 termination: every loop is driven by a finite std iterator whose None edge leaves the loop, or is the registered tokeniser loop whose every back-edge path advances the cursor by a positive amount; "
-    "every recursion cycle is registered with a decreasing measure; input-controlled recursion depth / fan-out is reported")
+    "every recursion cycle is registered with a decreasing measure; input-controlled recursion depth / fan-out is reported; guard rules also cover cuts at counted positions (position, take_while().count()), at the first match of a byte predicate that cannot hit a continuation byte, right after a one-byte match, after a leading one-byte delimiter, constant cuts under an established minimum length, ordered ranges below the length, n-1 after n != 0; read loops that continue only after consuming input and loops over array literals are classified; fingerprints are taken over canonical terms (ranges, element access, loop element == closure element)")
 NOT_DECIDED = [
     "panics inside dependencies for the arguments the crate passes (glob, indexmap, serde, tar, RustCrypto assumed total except the listed std APIs)",
     "stack exhaustion and running time as quantities: only their structural cause is reported",
